@@ -58,7 +58,7 @@ def project(r):
     return ('OK', [(lang, t, p) for lang, t, p in universe.texts_of(r)])
 
 
-def run(tier, seed, build, res):
+def _run_own(tier, seed, build, res):
     rng = random.Random(seed)
     N = 2 if tier == 'quick' else 3
     res.rule = ('formula bodies: all sequences of up to %d tokens out of %d '
@@ -184,6 +184,13 @@ def multi_stream(rng, res, n):
                         'collection are %r' % (lang, got, want))
         return None
     universe.run(cases, res, 'multi', project, oracle)
+
+
+def run(tier, seed, build, res):
+    _run_own(tier, seed, build, res)
+    # snippets of /repo's own tests and their mutations (harness/seeds.py)
+    universe.run_seeds(random.Random(seed + 7), res, project, tier, share=0.6)
+    universe.heading_finding('C10', res)
 
 
 def replay(payload, build, res):
